@@ -230,6 +230,25 @@ let op_vte_strip = function
       "OK\t" ^ hex_encode (S.init (L.length out) (fun i -> Char.chr (int_of_n (L.nth out i))))
   | _ -> "BADARGS"
 
+(* ---- edits (C06) *)
+(* every element is followed by ';' *)
+let texts_of_arg a =
+  let parts = S.split_on_char ';' a in
+  let rec drop_last = function [] | [ _ ] -> [] | p :: r -> p :: drop_last r in
+  L.map text_of_hex (drop_last parts)
+
+(* align_ops <tokens x> <tokens y> : token = hex, separated by ';' (a leading ';' = empty first token) *)
+let op_align_ops = function
+  | [ xs; ys ] ->
+      let ops = Align.operations Text.text_eqb (texts_of_arg xs) (texts_of_arg ys) in
+      "OK\t" ^ S.concat "" (L.map (function Align.ONoOp -> "N" | Align.ODel -> "D" | Align.OIns -> "I") ops)
+  | _ -> "BADARGS"
+
+let op_tokenize = function
+  | [ line ] ->
+      "OK\t" ^ S.concat "," (L.map hex_of_text (Tokenize.tokenize Tokenize.default_is_word (text_of_hex line)))
+  | _ -> "BADARGS"
+
 (* blame_run n keys gitflags *)
 let op_blame_run = function
   | [ n; keys; flags ] ->
@@ -250,6 +269,8 @@ let op_blame_spec = function
   | _ -> "BADARGS"
 
 let dispatch = function
+  | "align_ops" :: args -> op_align_ops args
+  | "tokenize" :: args -> op_tokenize args
   | "vte_strip" :: args -> op_vte_strip args
   | "style_parse" :: args -> op_style_parse args
   | "style_display" :: args -> op_style_display args
